@@ -48,5 +48,13 @@ pub fn configs(tier: Tier) -> Vec<Box<dyn Config>> {
         v.push(pairs(Plan::Cluster(2), if q { 4 } else { 5 }, Plan::Cluster(2), if q { 4 } else { 5 }, false, tier));
         v.push(pairs(Plan::Seq, 4, Plan::Max, 4, true, tier));
     }
+    // clones of tables of zero-sized elements create exactly one new element per stored element
+    v.push(Box::new(super::c02::ZstTables { tier }));
+    // HashSet::clone / clone_from / == over all ordered pairs of set states, equal and different hasher states
+    if sse2 {
+        v.push(super::c07::pairs(Plan::Zero, 3, Plan::Mix, 3, true, tier));
+    } else {
+        v.push(super::c07::pairs(Plan::Seq, 3, Plan::Max, 3, true, tier));
+    }
     v
 }
